@@ -148,6 +148,13 @@ def check_all(it, fn, a):
     problems = []
     if got != sorted(want):
         problems.append(f"requested {got}; ACTIVE accounts listed by the server {sorted(want)}")
+    # the discovered accounts are requested at the bank / broker the server named for them
+    c = cap.get("client")
+    if c is not None and not userfile:
+        if any(w[0] in ("StmtRq", "StmtEndRq") for w in want) and c.bankid != "111000614":
+            problems.append(f"bank accounts discovered at bank id 111000614 are requested with bank id {c.bankid!r}")
+        if any(w[0] == "InvStmtRq" for w in want) and c.brokerid != "broker.example.com":
+            problems.append(f"investment accounts discovered at broker.example.com are requested with broker id {c.brokerid!r}")
     return problems
 
 
